@@ -2971,3 +2971,85 @@ func init() {
 	extend("C10", ruleC10ReaderClosedBeforeReopen)
 	extend("C14", func(c *Ctx) {}) // (position semantics of reopening are covered by C14.no-stale-position / cursor-preserved)
 }
+
+// ruleC03SuffixSymmetry: the indexer strips the compression/encryption suffix from a name under a condition that
+// implies the writer added it: the writers add it only for regular entries WITH content, so a strip conditioned on
+// "regular" alone eats a suffix that belongs to the user's own name (e.g. an empty "/data.gz" under gzip).
+func ruleC03SuffixSymmetry(c *Ctx) {
+	const rule = "C03.suffix-symmetry"
+	c.floor(rule, 1, "RemoveSuffix call sites of the indexer")
+	add := c.fn("internal/suffix", "AddSuffix")
+	rem := c.fn("internal/suffix", "RemoveSuffix")
+	if add == nil || rem == nil {
+		return
+	}
+	kinds := func(f *FuncInfo, call *ast.CallExpr) map[string]bool {
+		out := map[string]bool{}
+		for _, cl := range enclosingConds(f.Body(), call) {
+			if containsNode(cl.e, call) {
+				continue
+			}
+			txt := exprString(cl.e)
+			if strings.Contains(txt, "IsRegular") {
+				out["regular"] = true
+			}
+			if strings.Contains(txt, "Size") || strings.Contains(txt, "UncompressedSize") {
+				out["has-content"] = true
+			}
+			// a condition on a variable obtained from the UncompressedSize record lookup
+			ast.Inspect(cl.e, func(m ast.Node) bool {
+				if id, ok := m.(*ast.Ident); ok {
+					if k := paxKeyOfIdent(f, id); k != nil && strings.Contains(k.Name(), "UncompressedSize") {
+						out["has-content"] = true
+					}
+				}
+				return true
+			})
+		}
+		return out
+	}
+	// what the writers require
+	writerNeedsContent := false
+	nw := 0
+	for _, f := range c.Funcs {
+		if f.RelPkg() != "pkg/operations" {
+			continue
+		}
+		for _, cs := range f.calls {
+			if cs.Target == add {
+				nw++
+				if kinds(f, cs.Call)["has-content"] {
+					writerNeedsContent = true
+				}
+			}
+		}
+	}
+	if nw == 0 {
+		c.unresolved("no AddSuffix call in pkg/operations")
+		return
+	}
+	n := 0
+	for _, f := range c.Funcs {
+		if f.RelPkg() != "pkg/recovery" {
+			continue
+		}
+		for _, cs := range f.calls {
+			if cs.Target != rem {
+				continue
+			}
+			n++
+			k := kinds(f, cs.Call)
+			good := !writerNeedsContent || k["has-content"]
+			c.verdictIf(good, rule, f, fmt.Sprintf("RemoveSuffix#%d", n), cs.Call.Pos(), "the suffix is stripped only where the writers add it",
+				"the writers append the format suffix only to regular entries that carry content, but the indexer strips it from every regular entry: a name that itself ends in the suffix (an empty \"/data.gz\" under gzip, or any such name in a metadata-only/move/delete record) is indexed under a shortened name and can no longer be found")
+		}
+	}
+	if n == 0 {
+		c.unresolved("the indexer no longer calls RemoveSuffix")
+	}
+}
+
+func init() {
+	extend("C03", ruleC03SuffixSymmetry)
+	extend("C02", func(c *Ctx) {})
+}
